@@ -43,11 +43,11 @@ fn per_variant<V: Variant>(r: &mut Report, ctx: &Ctx) {
     if ctx.want(&name) {
         r.section(
             &name,
-            "slices of every length 0..=2*SIZE: all but SIZE are rejected with InvalidStringLength, without panic; non-trivial = lengths != SIZE",
+            "slices of every length 0..=2*SIZE and of 3x, 4x, 16x, SIZE^2, 4096, 65536 bytes: all but SIZE are rejected with InvalidStringLength, without panic; non-trivial = lengths != SIZE",
             &format!("{} lengths", 2 * V::SIZE + 1),
             true,
             |s| {
-                for len in 0..=2 * V::SIZE {
+                for len in (0..=2 * V::SIZE).chain([3 * V::SIZE, 4 * V::SIZE, 16 * V::SIZE, V::SIZE * V::SIZE, 4096, 65536]) {
                     s.acc.evals += 1;
                     s.acc.transitions += 1;
                     if len != V::SIZE {
